@@ -20,6 +20,8 @@ party Receiver;
 type State { first: Int, second: Int, third: Bytes, }
 type Action { Stop, Go { x: Int, }, Turn { y: Int, z: Bytes, }, }
 type Mode { Fast { speed: Int, }, Default { level: Int, }, Idle, }
+type Inner { Pair { second: Int, first: Int, }, Empty, }
+type Outer { Empty, Pair { first: Int, second: Inner, }, }
 tx record_permuted(n: Int) {
     input source { from: Sender, min_amount: Ada(2000000) + fees, }
     output { to: Receiver, amount: Ada(2000000), datum: State { third: 0xabcd, second: 2, first: n, }, }
@@ -38,6 +40,11 @@ tx case_named_default(n: Int) {
 tx fieldless_last_case(n: Int) {
     input source { from: Sender, min_amount: Ada(2000000) + fees, }
     output { to: Receiver, amount: Ada(2000000), datum: Mode::Idle {}, }
+    output { to: Sender, amount: source - Ada(2000000) - fees, }
+}
+tx nested_same_case_name(n: Int) {
+    input source { from: Sender, min_amount: Ada(2000000) + fees, }
+    output { to: Receiver, amount: Ada(2000000), datum: Outer::Pair { first: n, second: Inner::Pair { second: 2, first: 3, }, }, }
     output { to: Sender, amount: source - Ada(2000000) - fees, }
 }
 tx variant_second(n: Int) {
@@ -84,6 +91,8 @@ fn main() {
             ("variant_second", constr_data(1, vec![int_data(n)])),
             ("case_named_default", constr_data(1, vec![int_data(n)])),
             ("fieldless_last_case", constr_data(2, vec![])),
+            // each constructor uses the declaration order of ITS OWN case: Outer::Pair [first, second], Inner::Pair [second, first]
+            ("nested_same_case_name", constr_data(1, vec![int_data(n), constr_data(0, vec![int_data(2), int_data(3)])])),
         ] {
             cases += 1;
             let input = format!("tx={name} n={n}");
